@@ -25,7 +25,11 @@ Problems(r) ==
           \cup R(r.lst_ok, "LST denom is not factory/<contract>/<sub>")
           \cup R(r.halted, "new contract not halted")
      [] r.kind = "update" ->
-          R(~r.ok \/ WellFormed(r.stored), "accepted configuration is not well-formed")
+          \* the sections ACCEPTED by this message must be well-formed against the prefixes now in effect; sections
+          \* that were not supplied are not re-validated by a sectional update (changing only the protocol prefix
+          \* necessarily leaves the monitors / treasury of earlier messages behind - not part of C14)
+          R(~r.ok \/ \A sec \in Supplied(r) : \A f \in Fields[sec] : GoodClass(f, r.stored[f]),
+            "an accepted section is not well-formed")
           \cup R(r.lst_ok, "UpdateConfig altered the LST denom")
           \cup R(r.halted, "UpdateConfig altered the halted flag")
           \cup R(\A s \in Sections : (s \notin Supplied(r) \/ ~r.ok) => r.unchanged[s], "a section that was not supplied (or a refused update) changed")
